@@ -1433,7 +1433,7 @@ func (f *Frame) scopeAt(st *execState, over map[ssa.Value]Val) *Scope {
 	}
 	sort.Slice(sc.instTerms, func(i, j int) bool { return sc.instTerms[i].id < sc.instTerms[j].id })
 	sc.addrOfLocal = func(name string) (*Term, *Term, bool) {
-		if a := f.addrNames[name]; a != nil {
+		if a := f.localByName(name); a != nil {
 			if pv, ok := st.env[a]; ok {
 				et := a.Type().Underlying().(*types.Pointer).Elem()
 				return pv.(Scalar).T, e.tb.ConstU(uint64(sizes.Sizeof(et)), 64), true
@@ -1515,7 +1515,7 @@ func (f *Frame) scopeAt(st *execState, over map[ssa.Value]Val) *Scope {
 			}
 		}
 		// an address-taken local: its current contents
-		if a := f.addrNames[name]; a != nil {
+		if a := f.localByName(name); a != nil {
 			if pv, ok := st.env[a]; ok {
 				et := a.Type().Underlying().(*types.Pointer).Elem()
 				return e.svOf(e.load(sc.mem, pv.(Scalar).T, et), et), true
